@@ -235,6 +235,7 @@ conversions do not depend on what the process did before, so the model's answer 
 def handle : Handler := fun op args =>
   match op, args with
   | "services_then", op' :: args' => handleCore op' args'
+  | "faithful_then", op' :: args' => handleCore op' args'   -- the same transaction validated with faithful records first: no memory
   | _, _ => handleCore op args
 
 end Pycoin.Driver.C13
